@@ -821,10 +821,39 @@ class UTPM(Ring, RawAlgorithmsMixIn):
         return xbar
 
     @classmethod
+    def _broadcast_parameters(cls, x_data, *params):
+        """
+        array-valued parameters are broadcast against the coefficient axes of
+        x (a parameter of higher rank must not be aligned with the direction
+        axis); returns (x_data, param_1, param_2, ...)
+        """
+        shp = x_data.shape[2:]
+        arrs = [a for a in params if isinstance(a, numpy.ndarray)]
+        target = numpy.broadcast_shapes(shp, *[a.shape for a in arrs])
+        if target == shp:
+            return (x_data,) + params
+        D,P = x_data.shape[:2]
+        x_data = numpy.broadcast_to(
+            x_data.reshape((D,P) + (1,)*(len(target) - len(shp)) + shp), (D,P) + target)
+        return (x_data,) + tuple(numpy.broadcast_to(a, target)
+            if isinstance(a, numpy.ndarray) else a for a in params)
+
+    @classmethod
+    def _sum_broadcast_axes(cls, tmp, x_shp):
+        """ sums the adjoint tmp over the axes along which x has been broadcast """
+        while tmp.ndim > len(x_shp):
+            tmp = tmp.sum(axis=2)
+        for ax in range(2, len(x_shp)):
+            if x_shp[ax] == 1 and tmp.shape[ax] != 1:
+                tmp = tmp.sum(axis=ax, keepdims=True)
+        return tmp
+
+    @classmethod
     def hyperu(cls, a, b, x):
         """ computes y = hyperu(a, b, x) in UTP arithmetic"""
-        retval = x.clone()
-        cls._hyperu(a, b, x.data, out = retval.data)
+        x_data, a, b = cls._broadcast_parameters(x.data, a, b)
+        retval = UTPM(x_data.copy())
+        cls._hyperu(a, b, x_data, out = retval.data)
         return retval
 
     @classmethod
@@ -836,14 +865,21 @@ class UTPM(Ring, RawAlgorithmsMixIn):
         else:
             # out = (abar, bbar, xbar)
             xbar = out[2]
+        x_data, a, b = cls._broadcast_parameters(x.data, a, b)
+        if x_data.shape != x.data.shape:
+            tmp = numpy.zeros(y.data.shape, dtype=xbar.data.dtype)
+            cls._pb_hyperu(ybar.data, a, b, x_data, y.data, out = tmp)
+            xbar.data[...] += cls._sum_broadcast_axes(tmp, xbar.data.shape)
+            return xbar
         cls._pb_hyperu(ybar.data, a, b, x.data, y.data, out = xbar.data)
         return xbar
 
     @classmethod
     def botched_clip(cls, a_min, a_max, x):
         """ computes y = botched_clip(a_min, a_max, x) in UTP arithmetic"""
-        retval = x.clone()
-        cls._botched_clip(a_min, a_max, x.data, out = retval.data)
+        x_data, a_min, a_max = cls._broadcast_parameters(x.data, a_min, a_max)
+        retval = UTPM(x_data.copy())
+        cls._botched_clip(a_min, a_max, x_data, out = retval.data)
         return retval
 
     @classmethod
@@ -855,6 +891,13 @@ class UTPM(Ring, RawAlgorithmsMixIn):
         else:
             # out = (aminbar, amaxbar, xbar)
             xbar = out[2]
+        x_data, a_min, a_max = cls._broadcast_parameters(x.data, a_min, a_max)
+        if x_data.shape != x.data.shape:
+            tmp = numpy.zeros(y.data.shape, dtype=xbar.data.dtype)
+            cls._pb_botched_clip(
+                    ybar.data, a_min, a_max, x_data, y.data, out = tmp)
+            xbar.data[...] += cls._sum_broadcast_axes(tmp, xbar.data.shape)
+            return xbar
         cls._pb_botched_clip(
                 ybar.data, a_min, a_max, x.data, y.data, out = xbar.data)
         return xbar
@@ -932,8 +975,9 @@ class UTPM(Ring, RawAlgorithmsMixIn):
     def polygamma(cls, n, x):
         """ computes y = polygamma(n, x) in UTP arithmetic"""
 
-        retval = x.clone()
-        cls._polygamma(n, x.data, out = retval.data)
+        x_data, n = cls._broadcast_parameters(x.data, n)
+        retval = UTPM(x_data.copy())
+        cls._polygamma(n, x_data, out = retval.data)
         return retval
 
     @classmethod
@@ -946,6 +990,13 @@ class UTPM(Ring, RawAlgorithmsMixIn):
         else:
             # out = (nbar, xbar)
             xbar = out[1]
+
+        x_data, n = cls._broadcast_parameters(x.data, n)
+        if x_data.shape != x.data.shape:
+            tmp = numpy.zeros(y.data.shape, dtype=xbar.data.dtype)
+            cls._pb_polygamma(ybar.data, n, x_data, y.data, out = tmp)
+            xbar.data[...] += cls._sum_broadcast_axes(tmp, xbar.data.shape)
+            return xbar
 
         cls._pb_polygamma(ybar.data, n, x.data, y.data, out = xbar.data)
 
